@@ -13,7 +13,10 @@ git -C /repo worktree add --detach "$W/wt" >/dev/null 2>&1 || exit 2
 cd "$W/wt"
 mkdir -p zz_demo; cp "$D/demo_test.go" zz_demo/demo_test.go
 go test -vet=off -count=1 ./zz_demo/ > "$W/demo-clean.log" 2>&1; clean_rc=$?
-if ! git apply "$D/patch.diff" 2> "$W/apply.log"; then echo "PATCH DOES NOT APPLY"; cat "$W/apply.log"; fi
+if ! git apply "$D/patch.diff" 2> "$W/apply.log"; then
+  # the patch was written against an earlier HEAD of /repo: try a 3-way merge
+  if git apply -3 "$D/patch.diff" 2>> "$W/apply.log" && ! git diff --name-only --diff-filter=U | grep -q .; then echo "patch applied with 3-way merge"; git reset -q; else echo "PATCH DOES NOT APPLY"; tail -5 "$W/apply.log"; fi
+fi
 go build ./... > "$W/build.log" 2>&1; build_rc=$?
 go test -vet=off -count=1 ./zz_demo/ > "$W/demo-patched.log" 2>&1; patched_rc=$?
 rm -rf zz_demo
